@@ -9,3 +9,11 @@ package autofile
 func (g *Group) VerifCheckHeadSizeLimit() { g.checkHeadSizeLimit() }
 
 func (g *Group) VerifHeadBufSize() int { return g.headBuf.Size() }
+
+// headSizeLimit can only be chosen when the group is opened; the harness sets it to the exact
+// size of the head file (and one below / above) to hit the boundary of the size comparison.
+func (g *Group) VerifSetHeadSizeLimit(limit int64) {
+	g.mtx.Lock()
+	g.headSizeLimit = limit
+	g.mtx.Unlock()
+}
